@@ -140,11 +140,12 @@ theorem quantRule_res {op : Op} (hq : op.isQuantifier = true) (vs : List Sym) (s
   split
   · next hemp =>
     have hnil : usedVars sf.fv vs = [] := by simpa using hemp
-    refine ⟨hsf.2, hsf.1, fun I hI hd => ?_, fun s hs => ?_⟩
+    refine Res.of_hyp hsf.2 hsf.1 (fun I hI _ => ?_) (fun I hI hd => ?_) (fun s hs => ?_)
+    · rw [hev, qv I hI, hnil]
+      simp only [Interp.quant]
+      exact eval_bool hsf.1 hsf.2 hI
     · rw [div0_quant I op hq, qd I hI, hnil] at hd
-      rw [hev, qv I hI, hnil]
-      simp only [Interp.quant] at hd ⊢
-      exact ⟨eval_bool hsf.1 hsf.2 hI, hd⟩
+      simpa only [Interp.quant] using hd
     · have hnot : s ∉ vs := by
         intro h
         have : s ∈ usedVars sf.fv vs := mem_usedVars.mpr ⟨h, hs⟩
@@ -158,10 +159,11 @@ theorem quantRule_res {op : Op} (hq : op.isQuantifier = true) (vs : List Sym) (s
       cases op <;> simp [Op.isQuantifier] at hq <;> rfl
     have hsh : op.shapeOK (.qvars (usedVars sf.fv vs)) [sf].length = true := by
       cases op <;> simp [Op.isQuantifier] at hq <;> rfl
-    refine ⟨hty', wf_mk' (wf_args hwf) hsh hty', fun I hI hd => ?_, fun s hs => ?_⟩
+    refine Res.of_hyp hty' (wf_mk' (wf_args hwf) hsh hty') (fun I hI _ => ?_) (fun I hI hd => ?_) (fun s hs => ?_)
+    · rw [hev, hev, qv I hI]
     · rw [div0_quant I op hq, qd I hI] at hd
-      rw [hev, hev, qv I hI, div0_quant I op hq]
-      exact ⟨rfl, hd⟩
+      rw [div0_quant I op hq]
+      exact hd
     · rw [fv_node] at hs ⊢
       cases op <;> simp [Op.isQuantifier] at hq <;>
         (simp only [List.map_cons, List.map_nil, List.flatten_cons, List.flatten_nil, List.append_nil,
